@@ -89,7 +89,11 @@ class SortableDict(col.MutableMapping):
                 raise KeyError('%r is duplicate' % key)
 
             if index is not None:
-                # We are re-locating.
+                # We are re-locating.  Removing the key shifts everything
+                # that follows it down by one place, including pos_key.
+                if (pos_key is not None) and \
+                        (self.index(key) < self.index(pos_key)):
+                    index -= 1
                 del self[key]
             else:
                 # We are updating
